@@ -133,10 +133,48 @@ def check_tables(ctx, tables):
     std = ce.ev(m, ix.toplevel[m.name]["SCC_STANDARD_CHARACTERS_MAPPING"][2])
   except (KeyError, NotConst) as e:
     raise AnalysisError(f"SCC_STANDARD_CHARACTERS_MAPPING is not a constant table ({e})")
+  # what SccWord.to_text makes of one byte: the comprehension(s) over (byte_1, byte_2) are evaluated for every byte value -
+  # the filter must drop the null byte only, the element must be the standard character of the byte
   to_text = ix.func("ttconv.scc.word:SccWord.to_text")
-  uses_default_chr = "chr(byte)" in unparse(to_text.node) and ".get(byte" in unparse(to_text.node)
+  comps = sorted([c for c in own_nodes(to_text.node) if isinstance(c, (ast.GeneratorExp, ast.ListComp)) and len(c.generators) == 1 and isinstance(c.generators[0].target, ast.Name)],
+                 key=lambda c: (c.lineno, c.col_offset))
+  ldefs = match.local_defs(to_text.node)
+
+  def source_of(comp):
+    it = comp.generators[0].iter
+    if isinstance(it, ast.Name) and len(ldefs.get(it.id, [])) == 1:
+      it = ldefs[it.id][0]
+    return it
+  first = [c for c in comps if isinstance(source_of(c), (ast.List, ast.Tuple)) and "byte_1" in unparse(source_of(c)) and "byte_2" in unparse(source_of(c))]
+  if len(first) != 1:
+    raise AnalysisError("SccWord.to_text: the comprehension over (byte_1, byte_2) was not found")
+  chain = [first[0]]
+  while True:
+    nxt = [c for c in comps if c not in chain and source_of(c) is chain[-1]]
+    if not nxt:
+      break
+    chain.append(nxt[0])
+  tm = to_text.module
+  wrong_filter, wrong_char = [], []
+  for b in range(0x00, 0x80):
+    v, alive = b, True
+    try:
+      for c in chain:
+        var = c.generators[0].target.id
+        if not all(ce.ev(tm, t, to_text.cls, {var: v}) for t in c.generators[0].ifs):
+          alive = False
+          break
+        v = ce.ev(tm, c.elt, to_text.cls, {var: v})
+    except NotConst as e:
+      raise AnalysisError(f"SccWord.to_text: the per-byte expression leaves the evaluable subset ({e})")
+    if alive != (b != 0):
+      wrong_filter.append(hex(b))
+    if b >= 0x20 and alive and v != oracle.standard_char(b):
+      wrong_char.append((hex(b), v, oracle.standard_char(b)))
+  ctx.check(not wrong_filter, "TAB-standard", "SccWord.to_text|only the null byte is filler", ctx.where(tm, to_text.node), "bytes 01h-7Fh are all rendered, 00h is skipped",
+            f"SccWord.to_text drops / keeps the wrong bytes: {wrong_filter[:6]} (every byte but 00h is a character; 7Fh is the solid block)")
   for b in range(0x20, 0x80):
-    got = std.get(b, chr(b) if uses_default_chr else None)
+    got = next((g for hb, g, _ in wrong_char if hb == hex(b)), oracle.standard_char(b))
     ctx.check(got == oracle.standard_char(b), "TAB-standard", f"SCC_STANDARD_CHARACTERS_MAPPING[{hex(b)}]", m.rel,
               f"{hex(b)} -> {got!r}", f"standard character {hex(b)} decodes to {got!r}; CEA-608 gives {oracle.standard_char(b)!r}")
   # row mapping and colour mapping
